@@ -35,6 +35,31 @@ def apply_edit(b, edit):
         raise KeyError(edit)
 
 
+def post_objects(b):
+    """objects the user builds AFTER a successful solve from objects held before it (C02: '...including ones built
+    after the solve'); the second group is built after a new leaf point was created (finding F13)."""
+    from PEPit import Point
+    x, x0 = b.held["x"], b.held["x0"]
+    b.held["post_sum"] = x + x0 / 2
+    b.held["post_inner"] = x * x0
+    b.held["post_sq"] = (x - x0) ** 2 - 1
+    b.held["post_con"] = (b.held["post_inner"] <= 1)
+
+
+def postleaf_objects(b):
+    from PEPit import Point
+    x, x0 = b.held["x"], b.held["x0"]
+    Point()                                        # a fresh leaf, e.g. the start of the user's next experiment
+    out = []
+    for name, mk in (("postleaf_sum", lambda: x - x0 / 2), ("postleaf_sq", lambda: (x + x0) ** 2)):
+        try:
+            mk().eval()
+            out.append(dict(name=name, out="ok"))
+        except Exception as e:
+            out.append(dict(name=name, out="raises:" + type(e).__name__))
+    return out
+
+
 def run(item):
     warnings.simplefilter("ignore")
     import cvxpy
@@ -77,6 +102,7 @@ def run(item):
                 out["note"] = "raises:" + crash
                 break
             obs["crash"] = crash
+            obs["postleaf"] = []
             obs["opts"] = dict(wrapper=kw["wrapper"], mode=kw["return_primal_or_dual"], heur=heur,
                                tol=pepsolve.fx(opts.get("tol", 1e-4)), solver=kw["solver"], verbose=kw["verbose"])
             obs["edit"] = opts.get("edit", "none") or "none"
@@ -89,7 +115,11 @@ def run(item):
         if any("inaccurate" in s for s in statuses):
             out["note"] = "inconclusive:" + ",".join(statuses)
             break
+        first_ok = ret is not None and len(out["solves"]) == 0 and len(item["solves"]) == 1
+        if first_ok:
+            post_objects(b)
         obs = pepsolve.observe(b.pep, ret, b.held)
+        obs["postleaf"] = postleaf_objects(b) if first_ok else []
         obs["opts"] = dict(wrapper=kw["wrapper"], mode=kw["return_primal_or_dual"], heur=heur,
                            tol=pepsolve.fx(opts.get("tol", 1e-4)), solver=kw["solver"], verbose=kw["verbose"])
         obs["crash"] = ""
